@@ -7,7 +7,7 @@ open Hv.Storage Driver.Stor
 def findingId (s : DS) : String :=
   match s.staleEp with
   | some ep => s!"C03-{ep}-stale-temp"
-  | none => "C03-crash-not-atomic"
+  | none => if s.cfg.closeFsyncs then "C03-crash-not-atomic" else "C03-rename-without-fsync"
 
 def hooks : Hooks where
   -- crash points are taken inside compactions only: everything written so far is durable
